@@ -1,16 +1,17 @@
-\* liveness with every switch in the position of the CODE: EventuallyStarted is violated, the counterexample
-\* ends with the limit being raised and nothing requesting a cycle (finding C05:set-upload-slots:raised-limit-not-applied).
+\* liveness with every switch in the position of the CODE (HEAD 77cb0ff): EventuallyStarted is violated; the
+\* counterexample re-queues an upload whose old task is still in flight, the cycle skips it, the task ends, nothing follows.
 SPECIFICATION FairSpec
 CONSTANTS
   UploadIds = {1}
   PerUser = 2
   MaxSlots = 1
-  InitSlots = {0}
+  InitSlots = {1}
+  InitTruth = {"unknown"}
   AnyInitAttr = FALSE
   Statuses = {"unknown", "offline", "away", "online"}
-  SlotBudget = 1
+  SlotBudget = 0
   AttrBudget = 0
-  LifeBudget = 0
+  LifeBudget = 3
   TrackMgmt = TRUE
   GrantAll = FALSE
   UseUploadingUsers = TRUE
@@ -20,6 +21,9 @@ CONSTANTS
   WFriend = 5
   WPriv = 100
   StateChangeNotifies = TRUE
-  SlotsChangeNotifies = FALSE
+  SlotsChangeNotifies = TRUE
+  TaskEndNotifies = FALSE
+  RequeueTail = FALSE
+  TrackPerUser = TRUE
 PROPERTY EventuallyStarted
 CHECK_DEADLOCK FALSE
